@@ -30,6 +30,7 @@ pub struct Process {
     runtime: Arc<Runtime>,
     // serializes the client actions on this process
     sync: Arc<std::sync::Mutex<()>>,
+    row_sync: Arc<std::sync::Mutex<()>>,
 }
 
 impl fmt::Debug for Process {
@@ -67,6 +68,7 @@ impl Process {
             err: Arc::new(RwLock::new(None)),
             runtime: rt.clone(),
             sync: Arc::new(std::sync::Mutex::new(())),
+            row_sync: Arc::new(std::sync::Mutex::new(())),
         })
     }
 
@@ -93,6 +95,12 @@ impl Process {
     pub fn load(&self, model: &Workflow) -> Result<()> {
         let tree = &mut self.tree.write().unwrap();
         tree.load(model)
+    }
+
+    /// held while the process row is read from the live process and written, so that
+    /// concurrent writers cannot leave an older image in the store
+    pub(crate) fn row_lock(&self) -> std::sync::MutexGuard<'_, ()> {
+        self.row_sync.lock().unwrap_or_else(|e| e.into_inner())
     }
 
     pub fn tree(&self) -> std::sync::RwLockReadGuard<'_, NodeTree> {
